@@ -18,3 +18,15 @@ CHECKS = {
           "no hard links/ownership); temp-name collisions excluded; durability (fsync) not modelled.",
  },
 }
+CHECKS["C18"] = {
+  "text": "Theorems over all word lists (unbounded length and word size) about the Lean transliteration of the tokenizer, "
+          "renderer and detector: parse(render) round-trip, detection of the rendered style, idempotence, injectivity of "
+          "renderings and the variant-table law, under an explicit decidable neutrality guard; boundary facts by kernel "
+          "evaluation. The transliteration is compared with the real parse_to_tokens/to_style/detect_style on every run "
+          "(bounded-exhaustive vocabulary sequences x 14 styles + hostile strings), and the laws are evaluated on the "
+          "implementation with an independent reference renderer.",
+  "design_ref": "DESIGN.md section 4, C18",
+  "technique": "Lean 4 proof (induction over words/bytes with tokenizer loop invariants) + differential correspondence + reference-renderer oracle",
+  "note": TB + "acronym table regenerated from acronym.rs each run; pluralizer crate is a parameter of the variant-table theorem; "
+          "Unicode case mapping outside ASCII not modelled (tokens are ASCII alphanumerics by construction of the tokenizer).",
+}
